@@ -52,6 +52,18 @@ CHECKS = {
         design_ref="DESIGN.md section 3 C29, section 8",
         technique="forward must-analysis over MIR CFG; field read/write sets; provenance",
     ),
+    "C30": dict(
+        category="other",
+        text="Decides the lock discipline around veryl_path::lock_dir in the five functions that take a directory lock "
+             "(std/<hash>, resolve/, dependencies/, the project's .build): exists()-decisions that control content "
+             "mutations are made with the lock held, content mutations happen with the lock held and before unlock, "
+             "the lock File is never leaked; and that nothing reachable from the language-server binary reaches the "
+             "blocking Store::open or locks the project's .build. One known finding (F4, veryl_std::expand) is listed "
+             "in known_findings.json. It does not decide absence of bad interleavings in general, nor match a lock "
+             "to the region a path argument lies in.",
+        design_ref="DESIGN.md section 3 C30, section 8",
+        technique="forward must-analysis (lock held) over MIR CFG; control-dependence of mutations on exists(); call-graph reachability",
+    ),
 }
 
 NA_SEMANTIC = {
